@@ -318,7 +318,8 @@ func TestVerifC14(t *testing.T) {
 					subst(fmt.Sprintf("symbol of frame %d -> alt%d", i, ai), func(t *zzvTrace) { t.frames[i].sym = strings.TrimSuffix(strings.TrimSuffix(alt, "()"), ":") + "PII" })
 				}
 				subst(fmt.Sprintf("args of frame %d -> alt%d", i, ai), func(t *zzvTrace) { t.frames[i].args = strings.ReplaceAll(alt, "\n", " ") })
-				subst(fmt.Sprintf("file of frame %d -> alt%d", i, ai), func(t *zzvTrace) { t.frames[i].file = "/PII/" + strings.ReplaceAll(strings.ReplaceAll(alt, " pc=", " pcx="), "\t", "") })
+				subst(fmt.Sprintf("file of frame %d -> alt%d", i, ai), func(t *zzvTrace) { t.frames[i].file = "/PII/" + strings.ReplaceAll(alt, "\t", "") })
+				subst(fmt.Sprintf("file of frame %d -> path with pc= inside (alt%d)", i, ai), func(t *zzvTrace) { t.frames[i].file = "/home/PII/my pc=1 dir/" + strings.ReplaceAll(alt, "\t", "") + "/main.go" })
 			}
 			for i := range b0.message {
 				i := i
